@@ -276,6 +276,24 @@ impl LockStep {
                 Expect::Unspecified(why) => {
                     // nothing to compare against: follow reality (the invariants above still apply)
                     rep.count(&format!("unspecified:{}", why), 1);
+                    // even then the adopted tree must be one a tree filesystem can be in: the type bits of every
+                    // mode are those of the entry's kind
+                    if self.mode == Mode::Model {
+                        for (k, n) in &real.nodes {
+                            let want = match n.kind {
+                                NKind::Dir => 0o40000,
+                                NKind::File(_) => 0o100000,
+                                NKind::Link { .. } => 0o120000,
+                            };
+                            if n.mode & !0o7777 != want && pre.nodes.get(k).map(|m| m.mode != n.mode).unwrap_or(true) {
+                                rep.violation(
+                                    &format!("model:{}:mode-type-bits-of-the-kind→other-type-bits", call),
+                                    self.witness(op, vec![("got", J::s(res.short())), ("entry", J::s(format!("{} mode {:o}", k, n.mode)))]),
+                                );
+                                break;
+                            }
+                        }
+                    }
                     self.model.t = real;
                     self.history.push(op.clone());
                     return true;
